@@ -30,8 +30,6 @@ ENTRY_POINTS = {
     "trigger.py::TrigInfo.call_action.do_func_call": ["ast_ctx.call_func"],
     "trigger.py::TrigInfo._call_expression": ["ast_expr.eval"],
     "trigger.py::TrigTime.init.user_task_create_factory.user_task_create.func_call": ["new_ast_ctx.call_func"],
-    "eval.py::EvalFunc.trigger_init.pyscript_service_factory.pyscript_service_handler.do_service_call": ["func.call"],
-    "decorators/service.py::ServiceDecorator._service_callback.do_service_call": ["func.call"],
     "decorators/base.py::ExpressionDecorator.check_expression_vars": ["self._ast_expression.eval"],
     "decorator.py::FunctionDecoratorManager._call": ["data.call_ast_ctx.call_func"],
     "function.py::Function.run_coro": ["ast_ctx.call_func"],
@@ -41,10 +39,38 @@ ENTRY_POINTS = {
 }
 
 
+# service handlers: the entry point is whatever coroutine the handler starts as the run's task (resolved from the code, not named here)
+SERVICE_HANDLERS = ("eval.py::EvalFunc.trigger_init.pyscript_service_factory.pyscript_service_handler", "decorators/service.py::ServiceDecorator._service_callback")
+
+
+def _service_entry_points(ctx, program):
+    found = {}
+    for huid in SERVICE_HANDLERS:
+        h = program.func(huid)
+        starts = [n for n in body_walk(h) if isinstance(n, ast.Call) and call_name(n) == "Function.create_task" and n.args]
+        if len(starts) != 1 or not isinstance(starts[0].args[0], ast.Call):
+            raise AnalysisError(f"{huid}: expected one Function.create_task(<coroutine call>) - found {[short(s) for s in starts]}")
+        coro = starts[0].args[0]
+        nested = {s.name: s for s in ast.walk(h) if isinstance(s, (ast.FunctionDef, ast.AsyncFunctionDef)) and s is not h}
+        cname = call_name(coro)
+        if cname in nested:
+            user = sorted({call_name(n) for n in body_walk(nested[cname]) if isinstance(n, ast.Call) and (call_name(n) or "").endswith(".call")})
+            if not user:
+                raise AnalysisError(f"{huid}.{cname}: no call of the script function found")
+            found[f"{huid}.{cname}"] = user
+        else:
+            ctx.fail("R18.1", huid, "the run's coroutine contains the function's exceptions",
+                     f"{huid}: the task of a service run is started directly on `{short(coro)}`: an exception of the script function reaches only run_coro's catch-all, which reports it on the "
+                     f"integration's own logger (custom_components.pyscript.function) without the script's logger, file, function or line", node=coro, rel=huid.split("::")[0])
+    return found
+
+
 def run(ctx):
     program = ctx.program
     ctx.rule("R18.1", "an exception raised by user code cannot leave the infrastructure entry point; it is logged through the script's logger", floor=10)
-    for uid, labels in ENTRY_POINTS.items():
+    entry_points = dict(ENTRY_POINTS)
+    entry_points.update(_service_entry_points(ctx, program))
+    for uid, labels in entry_points.items():
         f = program.func(uid)
         # the table names the user-code calls by method (the receiver's variable name is free to change)
         present = {call_name(n) for n in body_walk(f) if isinstance(n, ast.Call)} - {None}
@@ -98,6 +124,25 @@ def run(ctx):
     ctx.check(not reads, "R18.10", "eval.py::EvalExceptionFormatter.real_frame", "frame positions come from the traceback entry",
               msg=f"EvalExceptionFormatter reads `{short(reads[0]) if reads else ''}`: that is the last instruction the frame executed at all, not where the exception passed through it - "
               f"a fault inside try/finally (or re-raised from a handler) in a compiled helper is reported at the wrong line", key="frame position source", node=reads[0] if reads else rf, rel="eval.py")
+
+    ctx.rule("R18.11", "every native frame of the traceback is reported, wherever its file lies: natively compiled script code (@pyscript_compile, @pyscript_executor, lambda) "
+             "is compiled with the script's path - which is below the <config>/pyscript folder - and library frames name where the fault happened", floor=3)
+    from ..absint import Const, DictV, ListV, ObjV
+    for fname in ("/config/pyscript/hello.py", "/config/pyscript/modules/helper.py", "/usr/lib/python3.12/json/decoder.py"):
+        polf = FlowPolicy(program, may_raise_all=False, cancel=False, events=["self.stack.append"],
+                          summaries={"traceback.FrameSummary": lambda i, n, a, k, c, o: [(c, DictV([(Const(kk), vv) for kk, vv in k.items()]))],
+                                     "code.co_positions": lambda i, n, a, k, c, o: [(c, ListV((), "list"))]})
+        heapf = {"tb.tb_lineno": Const(7), "tb.tb_lasti": Const(-1), "tb.tb_frame": ObjV("frame", "frame"), "frame.f_code": ObjV("code", "code"), "code.co_filename": Const(fname),
+                 "code.co_name": Const("native_div")}
+        outf = run_flow(program, "eval.py::EvalExceptionFormatter.real_frame", polf, args={"self": ObjV("self", "EvalExceptionFormatter"), "tb": ObjV("tb", "traceback")}, heap=heapf)
+        got = []
+        for k, c, d in exits(outf):
+            apps = [e for e in c.trace if e[0] == "call" and e[1] == "self.stack.append"]
+            fs = apps[0][2][0] if apps and apps[0][2] else None
+            got.append((k, len(apps), fs.get(Const("filename")) if isinstance(fs, DictV) else None, fs.get(Const("lineno")) if isinstance(fs, DictV) else None))
+        ctx.check(got == [("return", 1, Const(fname), Const(7))], "R18.11", "eval.py::EvalExceptionFormatter.real_frame", f"native frame in {fname}",
+                  msg=f"real_frame for a frame of {fname} (line 7): (exit, frames added, file, line) = {got}, specified [('return', 1, {fname!r}, 7)]: the traceback ends before the frame "
+                  "where the fault happened", key=f"native frame {fname}", node=rf, rel="eval.py")
 
     ctx.rule("R18.3", "no user-code exception reaches the handler that ends a trigger loop", floor=1)
     uid = "trigger.py::TrigInfo.trigger_watch"
